@@ -802,7 +802,14 @@ func ruleU7(c *Ctx) {
 	}
 	n := 0
 	for _, file := range p.Syntax {
+		var stack []ast.Node
+		doneRoot := map[ast.Node]bool{}
 		ast.Inspect(file, func(x ast.Node) bool {
+			if x == nil {
+				stack = stack[:len(stack)-1]
+				return true
+			}
+			stack = append(stack, x)
 			bl, ok := x.(*ast.BasicLit)
 			if !ok || bl.Kind != token.STRING {
 				return true
@@ -811,6 +818,42 @@ func ruleU7(c *Ctx) {
 			if !ok || !strings.Contains(s, "{{") {
 				return true
 			}
+			// the literal may be one piece of a concatenation: "… {{." + label + "}}" is the same
+			// format as "… {{.%s}}" — judge the whole concatenation, variable parts written %s
+			var root ast.Expr = bl
+			for i := len(stack) - 2; i >= 0; i-- {
+				switch par := stack[i].(type) {
+				case *ast.BinaryExpr:
+					if par.Op == token.ADD {
+						root = par
+						continue
+					}
+				case *ast.ParenExpr:
+					root = par
+					continue
+				}
+				break
+			}
+			if doneRoot[root] {
+				return true
+			}
+			doneRoot[root] = true
+			var flat func(e ast.Expr) string
+			flat = func(e ast.Expr) string {
+				if v, ok := constStr(p.TypesInfo, e); ok {
+					return v
+				}
+				switch y := e.(type) {
+				case *ast.ParenExpr:
+					return flat(y.X)
+				case *ast.BinaryExpr:
+					if y.Op == token.ADD {
+						return flat(y.X) + flat(y.Y)
+					}
+				}
+				return "%s"
+			}
+			s = flat(root)
 			n++
 			good := true
 			rest := s
